@@ -1,4 +1,5 @@
 import Liquid.Eval
+import Proofs.ExprRoundTrip
 /-!
 # C08 — expressions: literals, variable/property/index lookup and filter pipelines
 -/
@@ -153,3 +154,53 @@ theorem pipeline_fold (P : Prims) (env : Env) (x : Expr) (fs : List (Bytes × Li
 /-! Non-vacuity -/
 example : indexValue (.slice .any [.int .int 7, .int .int 8, .int .int 9]) (.int .int (-1)) = .val (.int .int 9) := by
   simp [indexValue, indexValue.indexList, unwrap]
+
+
+/-! ## Printing an expression tree and parsing it again (`Liquid/ExprShow.lean`, `Proofs/ExprShowParse.lean`)
+
+`'(' cond ')'` is a production of `expr` with the value of the condition (`expressions.y`: `$$ = $2`), `and`/`or`
+are left associative with one precedence, so EVERY shape of tree has a spelling: `Expr.toks e 0` writes a
+sub-tree between parentheses exactly where the grammar wants a higher level. What has no spelling are leaves
+(`ETok.ok`, `Expr.printable`): literals other than nil / bool / Go int within int64 / float64 / a string that
+does not contain both `"` and `'`; names that are not identifiers or are one of `true false nil and or contains in`. -/
+
+/-- **C08 (round trip, tokens).** For every expression tree, the parser (with the fuel it gives itself) returns
+    the tree on its canonical tokens followed by the closing `;`. No hypothesis: the statement is about the
+    token list, so it holds for unprintable leaves too. -/
+theorem parse_show (e : Expr) : parseTokensE (e.toks 0 ++ [.ch 59]) = some (.expr e) := parseTokensE_toks e
+
+/-- … with any fuel from `e.cneed + 2` on (`cneed_le`: at most 8 per token), before any token that cannot
+    continue a condition (`)`, `;`, `]`, `,`, `..`, a keyword of a loop …) -/
+theorem parse_show_fuel (e : Expr) (F : Nat) (r : List ETok) (hF : e.cneed + 2 ≤ F) (hs : stopC r = true) :
+    parseCond F (e.toks 0 ++ r) = some (e, r) ∧ e.cneed ≤ 8 * (e.toks 0).length :=
+  ⟨parseCond_toks e F r hF hs, (bound e).c 0⟩
+
+/-- **C08 (round trip, text).** When the scanner reads the printed text back as the canonical tokens
+    (`Expr.lexesBack`; checked on every case of stream `eshow`, true by `rfl` on each example), parsing the printed
+    text gives the tree. -/
+theorem parse_show_source (e : Expr) (h : e.lexesBack) : parseExprSource e.show = .ok e := parse_show_of_lex e h
+
+/-- **C08 (normalisation is idempotent).** Whatever token list parses to `e` - any spelling, redundant
+    parentheses included - the canonical tokens of `e` parse to `e` again, and two trees with the same
+    canonical tokens are equal. -/
+theorem show_parse (ts : List ETok) (e : Expr) (_h : parseTokensE ts = some (.expr e)) :
+    parseTokensE (e.toks 0 ++ [.ch 59]) = some (.expr e) ∧ ∀ e', e'.toks 0 = e.toks 0 → e' = e :=
+  ⟨parseTokensE_toks e, fun e' h => toks_injective e' e h⟩
+
+/-- **C08 (evaluation agrees).** Evaluating the re-parsed canonical tokens is evaluating the tree. -/
+theorem eval_parse_show (P : Prims) (env : Env) (e : Expr) :
+    evalTokens P env (e.toks 0 ++ [.ch 59]) = some (eval P env e) := evalTokens_toks P env e
+
+/-! Non-vacuity on `a.b[1] | f: 'x"', -2 and (c or d.e contains "s")` (`rtExTree`, `rtExText`) -/
+
+example : rtExTree.show = rtExText := by decide +kernel
+example : rtExTree.printable = true := by decide +kernel
+example : parseExprSource rtExText = .ok rtExTree := by
+  have h : rtExTree.lexesBack := by unfold Expr.lexesBack; rfl
+  have := parse_show_source rtExTree h
+  rwa [show rtExTree.show = rtExText from by decide +kernel] at this
+/-- the same tree from another spelling: `( a .b [ 01 ]|f:'x"',-02 )and(c or(d.e)contains's')` -/
+example : parseExprSource [40, 32, 97, 32, 46, 98, 32, 91, 32, 48, 49, 32, 93, 124, 102, 58, 39, 120, 34, 39, 44, 45, 48, 50,
+    32, 41, 97, 110, 100, 40, 99, 32, 111, 114, 40, 100, 46, 101, 41, 99, 111, 110, 116, 97, 105, 110, 115, 39, 115, 39,
+    41] = .ok rtExTree := rfl
+example : parseTokensE (rtExTree.toks 0 ++ [.ch 59]) = some (.expr rtExTree) := parse_show rtExTree
